@@ -155,11 +155,16 @@ func (t *Translator) convertSingleMessage(msg AnthropicMessage) ([]map[string]in
 
 	// user msgs can have text + tool results, assistant msgs have text + tool uses
 	if msg.Role == "user" {
-		userMsg, toolMsgs := t.convertUserMessage(contentBlocks)
-		if userMsg != nil {
+		userMsg, toolMsgs, textFirst := t.convertUserMessage(contentBlocks)
+		// keep the order the client gave: tool results listed before the text (the order anthropic mandates)
+		// must stay directly after the assistant's tool_calls, with the user text following them
+		if userMsg != nil && textFirst {
 			result = append(result, userMsg)
 		}
 		result = append(result, toolMsgs...)
+		if userMsg != nil && !textFirst {
+			result = append(result, userMsg)
+		}
 	} else if msg.Role == "assistant" {
 		assistantMsg := t.convertAssistantMessage(contentBlocks)
 		if assistantMsg != nil {
@@ -171,9 +176,11 @@ func (t *Translator) convertSingleMessage(msg AnthropicMessage) ([]map[string]in
 }
 
 // split user message into text + tool results (openai needs tool results as separate messages)
-func (t *Translator) convertUserMessage(blocks []interface{}) (map[string]interface{}, []map[string]interface{}) {
+// textFirst reports whether the text came before any tool result in the client's block order
+func (t *Translator) convertUserMessage(blocks []interface{}) (map[string]interface{}, []map[string]interface{}, bool) {
 	var textParts []string
 	var toolResults []map[string]interface{}
+	textFirst := false
 
 	for _, block := range blocks {
 		blockMap, ok := block.(map[string]interface{})
@@ -185,6 +192,9 @@ func (t *Translator) convertUserMessage(blocks []interface{}) (map[string]interf
 		switch blockType {
 		case contentTypeText:
 			if text, ok := blockMap["text"].(string); ok && text != "" {
+				if len(textParts) == 0 && len(toolResults) == 0 {
+					textFirst = true
+				}
 				textParts = append(textParts, text)
 			}
 		case contentTypeToolResult:
@@ -220,7 +230,7 @@ func (t *Translator) convertUserMessage(blocks []interface{}) (map[string]interf
 		}
 	}
 
-	return userMsg, toolResults
+	return userMsg, toolResults, textFirst
 }
 
 // combine text + tool uses into single openai message
